@@ -55,12 +55,12 @@ Definition has_dc (t : rt) (c : dcl) : bool :=
 Definition id0 (n : nat) : nat := 2 * n.
 Definition id1 (n : nat) : nat := 2 * n + 1.
 
-(* _add_copy(p2, c): a new node in t2 around the same data object; t2 is a
-   fresh tree of t0's class with the default calc_data_id, so data_id =
-   hash(data); the kind of a typed node is kept (repair D62), meta is not
-   copied *)
+(* _add_copy(p2, c): a new node in t2 around the same data object; the copy
+   keeps the source node's data_id (repair D20: add_child(node) no longer
+   recomputes it) and the kind of a typed node (repair D62); t2 is a fresh tree
+   of t0's class; meta is not copied *)
 Definition res_info (i : info) (m : meta) : info :=
-  I (i_obj i) (i_eqc i) (i_hash i) (i_isstr i) (i_name i) (DInt (i_hash i)) (i_kind i) m.
+  I (i_obj i) (i_eqc i) (i_hash i) (i_isstr i) (i_name i) (i_did i) (i_kind i) m.
 
 (* diff.py:28-32  _find_child(arr, child): first element with [c == child]
    (Node.__eq__ compares the data objects), with its index *)
@@ -198,8 +198,10 @@ Definition eff_order (hints : list nat) (f : forest) : list nat :=
 Definition root_meta (ren : bool) : meta := if ren then [(k_ren, A 1%Z)] else [].
 
 (* Tree._register refuses a second child with the same data_id below one
-   parent (UniqueConstraintError); t2's data_ids are hash(data), so two t0
-   siblings with different explicit ids but equal hashes make diff() raise.
+   parent (UniqueConstraintError); t2's nodes carry the data_ids of their
+   sources, so this cannot happen for inputs that are themselves well-formed
+   trees (no two siblings with one data_id: DiffMore.diff_no_error).  The model
+   keeps the check because its inputs are arbitrary forest values.
    The exception leaves diff_tree, t2 is lost: only "raised" is observable. *)
 Fixpoint dids_nodup (l : list did) : bool :=
   match l with
@@ -244,13 +246,9 @@ Fixpoint dom_t (c0 : rt) (ch1 : list rt) {struct c0} : bool :=
 Definition dom_b (ch0 ch1 : list rt) : bool :=
   nodupb (keys_of ch0) && nodupb (keys_of ch1) && forallb (fun c0 => dom_t c0 ch1) ch0.
 
-(* executable forms of the extra hypotheses of the no-error theorem
-   (DiffMore.diff_no_error): sibling uniqueness everywhere in a forest, and
-   "equal hash only for equal data" over a list of nodes *)
-Definition sib_unique_b (f : forest) : bool :=
-  nodupb (keys_of f) && forallb (fun x => nodupb (keys_of (rch x))) (pre_f f).
-Definition hash_inj_b (l : list rt) : bool :=
-  forallb (fun x => forallb (fun y =>
-    implb (Z.eqb (i_hash (rinfo x)) (i_hash (rinfo y))) (Z.eqb (i_eqc (rinfo x)) (i_eqc (rinfo y)))) l) l.
-Definition no_raise_b (t0 t1 : forest) : bool :=
-  dom_b t0 t1 && sib_unique_b t1 && hash_inj_b (pre_f t0 ++ pre_f t1).
+(* executable form of the hypothesis of the no-error theorem
+   (DiffMore.diff_no_error): no two siblings with one data_id, anywhere in
+   both inputs (what Tree._register guarantees for every real tree) *)
+Definition dsu_b (f : forest) : bool :=
+  dids_nodup (map rdid f) && forallb (fun x => dids_nodup (map rdid (rch x))) (pre_f f).
+Definition no_raise_b (t0 t1 : forest) : bool := dsu_b t0 && dsu_b t1.
